@@ -21,7 +21,14 @@ let handle (line : ostr) : ostr =
     let s = stmt_of_string tree in
     let b i = flags.[i] = '1' in
     let o = { o_flat = b 0; o_bin = b 1; o_anno = b 2; o_dov = b 3; o_actop = b 4 } in
-    res_out hex_of_bytes (vis_print vis_T o (vis_fuel s) s)
+    (if vwf_stmt s then "wf " else "nwf ") ^ res_out hex_of_bytes (vis_print vis_T o (vis_fuel s) s)
+  | ["visn"; flags; tree] ->
+    (* root given as a node (what ParseStatement returns): Leaf with a statement, or a pair combination *)
+    let n = node_of_string tree in
+    let b i = flags.[i] = '1' in
+    let o = { o_flat = b 0; o_bin = b 1; o_anno = b 2; o_dov = b 3; o_actop = b 4 } in
+    let fuel = nat_of_int (2 * int_of_nat (node_size n) + 8) in
+    res_out hex_of_bytes (vis_print_node vis_T o fuel n)
   | ["echo"; tree] -> wstmt (stmt_of_string tree)
   | m :: _ -> "bad:unknown mode " ^ m
   | [] -> "bad:empty"
